@@ -3,6 +3,7 @@ package c06
 import (
 	"bytes"
 	"fmt"
+	"io"
 
 	"github.com/EliCDavis/polyform/formats/gltf"
 
@@ -61,6 +62,35 @@ func (k checker) saveOver(seq []int, glb bool) {
 	if !bytes.Equal(got, want.Bytes()) {
 		k.c.Eval(scope, "mismatch")
 		fail(fmt.Sprintf("after the saves %v to one path the file holds %d bytes, the last scene alone writes %d (or other content)", seq, len(got), want.Len()))
+		return
+	}
+	k.c.Eval(scope, "ok")
+}
+
+// a write after a failed write (core.AfterFailedWrite), per container
+func (k checker) afterFailedWrite(glb bool) {
+	cs := Case{GLB: glb, SaveSeq: []int{-1}}
+	name := "WriteText"
+	if glb {
+		name = "WriteBinary"
+	}
+	k.c.Nontrivial("after-failed-write", glb)
+	big := Case{Models: []ModelSpec{{Mesh: "O", Mat: "M", TRS: "TRS"}, {Mesh: "Q", Mat: "Mt", TRS: "T"}, {Mesh: "P", Mat: "Ms", TRS: "S", Inst: 2}}, Lights: 1}
+	small := Case{Models: []ModelSpec{{Mesh: "A", Mat: "-", TRS: "-"}}}
+	why := core.AfterFailedWrite(core.FailLimits, func(it int, w io.Writer) error {
+		sc := Build(small)
+		if it == 0 {
+			sc = Build(big)
+		}
+		if glb {
+			return gltf.WriteBinary(sc, w)
+		}
+		return gltf.WriteText(sc, w)
+	})
+	scope := "files/after-failed-write/" + name
+	if why != "" {
+		k.c.Eval(scope, "mismatch")
+		k.c.Violate(core.Violation{Site: "gltf." + name, Clause: "writing a scene yields exactly the document of that scene (also right after an earlier write failed)", Class: "after-failed-write/" + name, Detail: why, Case: cs})
 		return
 	}
 	k.c.Eval(scope, "ok")
